@@ -138,7 +138,21 @@ def F11():
     return (r is False, str(r))
 
 
-ALL = dict(F1=F1, F19=F19, F2=F2, F3=F3, F4=F4, F5=F5, F6=F6, F7=F7, F8=F8, F9=F9, F11=F11)
+def F12():
+    A = NFA(states={0}, input_symbols={"a"}, transitions={0: {"a": {0}}, 7: {"a": {0}}}, initial_state=0, final_states={0})
+    B = NFA(states={0, 1}, input_symbols={"a"}, transitions={0: {"a": {1}}}, initial_state=0, final_states={1})
+    n = NFA(states={0, 1, 2, 4}, input_symbols={"a", "b"},
+            transitions={0: {"a": {1}}, 1: {"a": {2}, "b": {1, 2}}, 2: {}, 3: {"a": {2}, "b": {2}}},
+            initial_state=0, final_states={2})
+    try:
+        A.union(B); B.union(A); A.concatenate(B); A.reverse()
+        r = n.reverse()
+    except Exception as e:
+        return (False, f"raised {type(e).__name__}")
+    return (r.accepts_input("aaa") == n.accepts_input("aaa"), f"reverse accepts 'aaa': {r.accepts_input('aaa')}")
+
+
+ALL = dict(F12=F12, F1=F1, F19=F19, F2=F2, F3=F3, F4=F4, F5=F5, F6=F6, F7=F7, F8=F8, F9=F9, F11=F11)
 
 if __name__ == "__main__":
     names = sys.argv[1:] or list(ALL)
